@@ -340,8 +340,11 @@ def _px_violations(agg, o, pid, also=()):
 def check_px(pid, tier, seed, t0):
     which = {"C05": "c05", "C15": "c15", "C16": "c16"}[pid]
     agg = _agg()
-    o = px_enum(agg, which, tier)
-    _px_violations(agg, o, pid)
+    # guarded like every other leg: if the engine that binds the macro sources as a library no longer builds against this tree
+    # (an internal signature changed), the legs that only need the public macros (conformance programs, wx, cx) still decide
+    o = _guarded(agg, px_enum, agg, which, tier)
+    if o is not None:
+        _px_violations(agg, o, pid)
     runs = [None]
     if pid == "C16" and tier == "thorough":
         # the same decorated/twin pairs with predicates that are real `--cfg` flags: one compilation per truth vector
